@@ -10,7 +10,7 @@ HISTORY_FREE = ["halton", "rseq", "uniform", "pso"]
 CLASS_NAMES = {"halton": "HaltonSampler", "rseq": "RSequenceSampler", "uniform": "RandomUniformSampler",
                "best": "BestBatchSampler", "pso": "ParticleSwarmSampler", "xgb": "XGBoostSampler",
                "rf": "RandomForestSampler", "gp": "GaussianProcessSampler", "cors": "CORSSampler",
-               "nested": "LocalUniformSampler"}
+               "nested": "LocalUniformSampler", "fake_halton": "HaltonSampler"}
 
 
 # ---- search spaces ---------------------------------------------------------------------------------------------------
@@ -134,6 +134,9 @@ def make_sampler(s, max_samples=1000, seed_override="spec"):
         return RSequenceSampler(bs, random_state=seed, max_deduplication_passes=dd)
     if k == "uniform":
         return RandomUniformSampler(bs, random_state=seed, max_deduplication_passes=dd)
+    if k == "fake_halton":   # a user's class that merely shares the library class's name
+        from harness.stubs import UserSamplers
+        return UserSamplers.HaltonSampler(bs, random_state=seed, max_deduplication_passes=dd)
     if k == "nested":   # a user-defined sampler class that lives inside another class
         from harness.stubs import UserSamplers
         return UserSamplers.LocalUniformSampler(bs, random_state=seed, max_deduplication_passes=dd)
